@@ -65,6 +65,10 @@ def scenarios(tier, rng):
         sc["reqs"] += [{"k": "malformed", "at": "idle"}, {"k": "pub", "q": 1, "at": "idle"}] * n
         add(sc)
     add(S("", [P(1)], ["conn"], [{"p": "PINGREQ", "n": 2, "o": "dropAck"}], opts=dict(o, pingMs=15, connTimeoutMs=100, quietMs=200)))
+    # CleanSession configured by the application: the CONNECT of every re-connection carries it as the first one did
+    for n in (1, 2):
+        add(S("", [P(1)] * n, ["conn"] * n, [{"p": "PUBLISH", "n": k + 1, "o": "cutAfter"} for k in range(n)], opts=dict(o, cleanSession=True)))
+        add(S("", [P(1)] * n, ["conn"] * n, [{"p": "PUBLISH", "n": k + 1, "o": "cutBefore"} for k in range(n)], opts=dict(o, cleanSession=True, alwaysResub=True)))
     # Disconnect arriving in every phase
     for at in ("dial:1", "write:1", "conn", "dial:2", "write:3", "connopt:3"):
         sc = S("", [P(1)], ["pre"], [{"p": "PUBLISH", "n": 1, "o": "cutAfter"}], opts=dict(o))
